@@ -485,4 +485,6 @@ WITNESSES = [
      "old": "\t\t\t(*lvl)--;\n\t\t\treturn root_node->parent;", "new": "\t\t\treturn root_node->parent;"},
     {"id": "C01.w14-lookup-descends-without-level-increment", "rule": "C01.R3", "file": TRIE,
      "old": "\t\t\troot = root->rchild;\n\n\t\t(*lvl)++;", "new": "\t\t\troot = root->rchild;\n\t\tif (root && root->len > mask_len)\n\t\t\tcontinue;\n\t\t(*lvl)++;"},
+    {"id": "C01.w15-lookup-stops-at-depth-mask_len", "rule": "C01.R2", "file": TRIE,
+     "old": "\twhile (root) {\n\t\tif (root->len <= mask_len && lrtr_ip_addr_equal(", "new": "\twhile (root && *lvl < mask_len) {\n\t\tif (root->len <= mask_len && lrtr_ip_addr_equal("},
 ]
